@@ -272,8 +272,10 @@ def cpp_accepted(res):
         return "reader crashed or hung: " + res.get("stderr", "")[-200:]
     if res["ok"]:
         return "foreign/corrupt stream was relayed to completion without error"
+    if res.get("phase") == "construct_writer":
+        return "the reader accepted the header (the relay failed later, constructing its writer: %s)" % res.get("what")
     lines = [l for l in bytes.fromhex(res["out"]).decode("utf-8", "replace").split("\n")[1:] if l.strip()]
-    if lines:
+    if lines and not res["out"].startswith("7961"):      # (binary output: not counted in lines)
         return "%d values were delivered before the error %s" % (len(lines), res.get("what"))
     return ""
 
@@ -332,6 +334,8 @@ def run_twin(task, rng, pkg_b, edit, a_streams, want_cpp, ybin, root, quick, sta
                 mcls = "misdelivery_enum_vs_flags" if edit == "enum_to_flags" else "misdelivery_near_identical"
                 jobs.append(("stream of the near-identical protocol (%s) delivered" % edit, mcls, "binary", a_streams[proto.name][0]))
                 jobs.append(("NDJSON stream of the near-identical protocol (%s) delivered" % edit, mcls, "ndjson", a_streams[proto.name][1]))
+                if len(a_streams[proto.name]) > 3 and a_streams[proto.name][3] is not None:
+                    jobs.append(("stream written by the near-identical model's own C++ writer (%s) delivered" % edit, mcls, "binary", a_streams[proto.name][3]))
             for other in ([] if only_misdelivery else protos):
                 if other.name != proto.name:
                     sib = other.name == proto.name + SIBLING or proto.name == other.name + SIBLING
@@ -393,7 +397,9 @@ def run_twin(task, rng, pkg_b, edit, a_streams, want_cpp, ybin, root, quick, sta
             # instance leaves behind in the process (caches, statics) is part of the state the next one starts from.
             rng.fork("cpporder").shuffle(cpp_jobs)
             inputs = [pb for _, _, _, _, pb in cpp_jobs]
-            runs = [{"proto": p.name, "op": "relay", "in_fmt": fmt, "out_fmt": "ndjson", "input": k} for k, (p, _, _, fmt, _) in enumerate(cpp_jobs)]
+            # (values delivered are observed as NDJSON lines; a stream that a C++ writer produced is relayed to binary instead: the
+            #  NDJSON writer parses the schema constant of the generated code, and this must not stand in the reader's way)
+            runs = [{"proto": p.name, "op": "relay", "in_fmt": fmt, "out_fmt": "binary" if "own C++ writer" in what_ else "ndjson", "input": k} for k, (p, what_, _, fmt, _) in enumerate(cpp_jobs)]
             results = cm.run_plan(inputs, runs, timeout=300)
             ctrl_ok = {}
             for res, (p, what, cls, fmt, pb) in zip(results, cpp_jobs):
@@ -402,7 +408,9 @@ def run_twin(task, rng, pkg_b, edit, a_streams, want_cpp, ybin, root, quick, sta
             for k, (res, (p, what, cls, fmt, pb)) in enumerate(zip(results, cpp_jobs)):
                 if cls.startswith("control"):
                     continue
-                if not ctrl_ok.get(p.name):
+                if not ctrl_ok.get(p.name) and not cls.startswith("misdelivery"):
+                    # (a foreign stream that is accepted is a violation whether or not the reader manages its own reference stream;
+                    #  a corrupted own stream is only judged when the intact one is readable)
                     stats["cpp_baseline_unreadable(skipped)"] = stats.get("cpp_baseline_unreadable(skipped)", 0) + 1
                     continue
                 stats["runs"] += 1
@@ -563,16 +571,31 @@ def model_task(task, ybin, root):
     pkg_b = near_identical(pkg_a, edit)
     stats, viols, cases = {"models_with_cpp": 1 if want_cpp else 0, "edit_" + edit: 1, "models_with_a_schema_text_of_some_20_kB": 1 if stats_big else 0}, [], []
     # model A: only its schemas are needed (its streams come from the reference encoder)
-    model_a = P.PyModel(pkg_a, ybin, root)
+    # (for C++ models also what model A's *own generated C++ writer* puts at the head of a stream: default values written
+    #  through a call script - the header a C++ reader meets in practice is one a C++ writer emitted, not the reference text)
+    model_a = P.PyModel(pkg_a, ybin, root, want_cpp=want_cpp, cpp_opts=C.CPP_OPTS)
     try:
         env_a = model_a.env
         codec_a = R.Codec(env_a)
         a_streams = {}
+        cm_a = None
+        if want_cpp:
+            try:
+                cm_a = C.CppModel(model_a.dir)
+            except C.GeneratedCodeDoesNotCompile:
+                cm_a = None
         for proto in model_a.protocols():
             r = rng.fork("avals", proto.name)
             vals = sw.gen_values(env_a, pkg_a.namespace, proto, r, finite=True, items=(1, 3))
+            cppw = None
+            if cm_a is not None and proto.name in cm_a.copyto:
+                script = [["mkW", "binary"]] + [(["E", k_] if st_ else ["W1", k_]) for k_, (_, _, st_) in enumerate(proto.steps)] + [["CW"]]
+                res_ = cm_a.run_plan([b""], [{"proto": proto.name, "op": "script", "input": 0, "script": script}], timeout=120)[0]
+                if res_ is not None and not res_.get("crashed") and res_.get("ok") and all(c_.get("r") == "ok" for c_ in res_.get("calls", [])):
+                    cppw = bytes.fromhex(res_["out"])
+                    stats["streams_written_by_the_twin_models_own_cpp_writer"] = stats.get("streams_written_by_the_twin_models_own_cpp_writer", 0) + 1
             a_streams[proto.name] = (codec_a.encode_stream(proto, pkg_a.namespace, model_a.schema(proto), vals),
-                                     codec_a.encode_ndjson(proto, pkg_a.namespace, model_a.schema(proto), vals), model_a.schema(proto))
+                                     codec_a.encode_ndjson(proto, pkg_a.namespace, model_a.schema(proto), vals), model_a.schema(proto), cppw)
     finally:
         model_a.close()
     run_twin(task, rng, pkg_b, edit, a_streams, want_cpp, ybin, root, quick, stats, viols, cases)
@@ -663,7 +686,7 @@ def main():
                assumptions=["a corruption after which the header is still the reader's own header by the documented format (NDJSON line parsing to the same JSON) is benign and skipped"],
                replay_fn=replay_doc, quick_budget=140,
                fault_keys=("misdelivery_near_identical", "misdelivery_enum_vs_flags", "misdelivery_unrelated", "misdelivery_sibling_protocol", "flip_magic", "flip_version", "flip_schema_length", "subst_magic", "subst_version",
-                           "subst_schema_length", "flip_schema_text", "watch_sessions", "schema_prefix", "degenerate_schema", "cpp_degenerate_schema", "schema_extended", "schema_token_replaced", "flip_ndjson_header", "ndjson_version", "ndjson_header_structure",
+                           "subst_schema_length", "flip_schema_text", "watch_sessions", "streams_written_by_the_twin_models_own_cpp_writer", "schema_prefix", "degenerate_schema", "cpp_degenerate_schema", "schema_extended", "schema_token_replaced", "flip_ndjson_header", "ndjson_version", "ndjson_header_structure",
                            "cpp_misdelivery_near_previous_version", "cpp_flip_previous_schema_text", "python_previous_version"))
 
 
